@@ -41,6 +41,15 @@ CHECKS = {
  "C11": dict(level="other", technique="abstract expansion of the Default builders; variant selection with 1..3 unrolled variants (all mark combinations); Into boundary as a decision model",
    text="Struct: a type-level #[default(expr)] wins, otherwise every field is its own expression - wrapped in Into::<FieldTy>::into exactly when it is a string literal or a path - or <FieldTy as Default>::default(). Enum, evaluated with 1, 2 and 3 distinct symbolic variants over all combinations of #[default] marks: exactly one mark without value, or the only variant, is chosen and built the same way; no / several marks and a value on a variant mark end in a derive_ex error on every path.",
    note="User expressions are embedded as written. `_` = no value is decided when the attribute is parsed.", ref="5 C11"),
+ "C12": dict(level="other", technique="zero-attribute specialisation of the extracted decision models + syntax-directed shape rules on instances printed for 0, 1 and 2 elements",
+   text="At the all-absent attribute state the five comparison models select the default comparator for every field with no ignore, reverse or error (so the C01/C06/C07/C10/C11 rules specialise to the standard derives' field-wise, declaration-order semantics); every role is printed for unit / empty / single-field structs and for enums without variants, and every instance must parse, must not match a reference with zero arms, must hand fields to the formatter as a reference to a reference (unsized tails), and must print names without stringify! (raw identifiers).",
+   note="Behavioural identity with the std derives on values is a consequence of the specialisation, not evaluated. The description of what the std derives generate is trusted.", ref="5 C12"),
+ "C13": dict(level="other", technique="syntax-directed scan of every distinct schematic instance: absolute-path rule and reserved-prefix rule for every binder; positive fixture",
+   text="Every distinct schematic instance of every role, shape and decision path (all comparison traits, operators, Clone/Copy/Debug/Default/Deref, unit/empty/1/2-element shapes) is scanned: each path must be rooted at ::core, Self, a user-provided token or a name bound inside the instance; each identifier the expansion binds (generics, lifetimes, fn names, parameters, closure parameters, let and match bindings) must carry the reserved `__` prefix and must not be spelt with a user identifier. Violations are keyed by binder / path; the recorded ones (F13, F14) are listed in known_findings.txt, any other name is reported.",
+   note="Macro names (unreachable!) and inherent method names are outside the rule. Known findings recorded rather than repaired: the repair renames identifiers across most templates.", ref="5 C13"),
+ "C20": dict(level="other", technique="enumerated necessary conditions checked syntactically on every distinct schematic instance",
+   text="Universal well-typedness of generated code is not decidable here; decided are necessary conditions, one per known way generated code fails to type-check, on every distinct instance of every role/shape/path: parses as items; operands of the generated && chain are atomic; no nested fn item names a field type (E0401 with generic field types - recorded finding F11); no free fn reuses unexpanded generics (E0411 with Self in a where-clause - recorded finding F12); no zero-arm match on a reference; no fixed generic or lifetime names at impl/method level. Body obligation vs bound pairing is C03.",
+   note="Not universal: everything outside the listed rules is not claimed. F11/F12 are recorded in known_findings.txt.", ref="5 C20"),
  "C17": dict(level="other", technique="abstract interpretation + obligation extraction from the generated checker function",
    text="On every path of the Eq body builder the generated checker contains, per compared field, one call of a local function whose type parameter is bounded by Eq on the field or on its key; nothing is generated exactly for ignored and by-compared fields (compared with the reference on all 2^20 states); the checker is emitted as a function item next to the impl so that rustc type-checks it.",
    note="Relies on rustc rejecting the Eq-bounded call for non-Eq types (language semantics).", ref="5 C17"),
